@@ -1,5 +1,170 @@
-"""Summarize::handle_event (async) obligations - filled in below."""
+"""Summarize::handle_event (the async writer entry point) polled symbolically.
+
+One poll of the real coroutine MIR from an arbitrary summariser state with a fully symbolic stream item;
+the inner writer's handle_event / write are futures that complete after `k` polls (k = 0 quick; 0..2 thorough),
+so the coroutine is re-polled until Ready.  handle_scenario is replaced by a recorder (its own behaviour is
+decided separately), Styles::* / summary text are havoced (the text is outside the property).
+"""
+import z3
+
+from checks import common, summ, events
+from checks.common import Obligation
+from mirsmt.values import Cell, Lazy, Adt, Ref, UNIT, bv
+from mirsmt.interp import Inconclusive, PathEnd
 
 
 def handle_event_obligations(chk, prop):
-    return []
+    ix = events.CukeIdx(chk.prog)
+    pendings = (0, 1, 2) if chk.tier == 'thorough' else (0, 1)
+    obs = {}
+
+    def ob(name):
+        if name not in obs:
+            obs[name] = chk.add(Obligation('%s.handle_event.%s' % (prop, name),
+                                           'every path of one handle_event call (polled to completion), arbitrary state, arbitrary stream item, inner futures pending k in %s polls' % (pendings,)))
+            obs[name].verdict = 'holds'
+        return obs[name]
+
+    total_paths = [0]
+    for k in pendings:
+        ex, M = chk.new_exec(loop_bound=6)
+        M.opaque_bodies |= {'Styles::new', 'Styles::apply_coloring', '<impl>::summary', 'Colored::coloring'}
+        M.allow_havoc_mut |= {'Styles::apply_coloring'}
+        he = chk.prog.find('summarize.rs:194:1: 198:22>::handle_event') if False else None
+        cands = [b for (st, meth), lst in chk.prog.by_method.items() if st == 'Summarize' and meth == 'handle_event' for tr, b in lst if tr == 'Writer']
+        if len(cands) != 1:
+            raise Inconclusive('Summarize::handle_event: %d candidates' % len(cands))
+        entry = cands[0]
+        S = summ.SymState('S')
+        state_d = z3.BitVec('S.state', 64)
+        E = events.SymCuke('E')
+
+        def hs_recorder(ex_, info, a, dty):
+            M.log(ex_, 'handle_scenario', args=a)
+            return UNIT
+        M.table['Summarize::handle_scenario'] = hs_recorder
+
+        def run(ex_, k=k, S=S, E=E, M=M, entry=entry, state_d=state_d):
+            ex_.env['inner_pending'] = k
+            ex_.add(z3.And(*[z3.ULT(v, bv(1 << 62)) for v in S.vars()]))
+            ex_.add(z3.And(z3.ULT(state_d, bv(len(ix.State))), E.well_formed(ix)))
+
+            def stats(pfx):
+                return Adt('writer::summarize::Stats', {(None, ix.Stats[n]): S.c['%s_%s' % (pfx, n)] for n in ix.Stats})
+            sv = Adt('writer::summarize::Summarize<W>', {
+                (None, ix.S['features']): S.c['features'], (None, ix.S['rules']): S.c['rules'],
+                (None, ix.S['scenarios']): stats('sc'), (None, ix.S['steps']): stats('st'),
+                (None, ix.S['parsing_errors']): S.c['parsing_errors'], (None, ix.S['failed_hooks']): S.c['failed_hooks'],
+                (None, ix.S['state']): Adt('writer::summarize::State', {}, state_d, None),
+                (None, ix.S['handled_scenarios']): M.new_symmap(ex_, 'S.map', summ.KEY_TY, summ.IND_TY),
+            }, None, 'S')
+            cell = Cell(sv, name='self')
+            evv = E.build(ix)
+            cli = Ref(Cell(Lazy('Cli', 'cli'), name='cli'), ())
+            co = ex_.call_body(entry, [Ref(cell, ()), evv, cli])
+            cocell = Cell(co, name='coroutine')
+            pin = Adt('Pin<&mut coroutine>', {(None, 0): Ref(cocell, ())})
+            cx = Ref(Cell(Lazy('Context', 'cx')), ())
+            polls = 0
+            while True:
+                polls += 1
+                if polls > 2 * k + 3:
+                    raise PathEnd('loopbound', 'handle_event not Ready after %d polls' % polls)
+                body = ex_.prog.poll_body(co.ty, ex_.coro_origin.get(co.ty))
+                r = ex_.call_body(body, [pin, cx])
+                d = M.discr(ex_, r)
+                if ex_.branch(d == bv(0)):
+                    break
+            return {'self': cell.v, 'polls': polls, 'log': list(ex_.env.get('log', [])), 'input': evv}
+
+        def on_end(ex_, rec, S=S, E=E, M=M, state_d=state_d, k=k):
+            kind, res, pc, dec = rec
+            total_paths[0] += 1
+            if kind != 'ok':
+                o = ob('completes')
+                if kind == 'panic' and 'overflow' in str(res):
+                    o.verdict = 'violated'
+                else:
+                    o.verdict = 'inconclusive' if kind in ('loopbound', 'unreachable') else 'violated'
+                o.detail = '%s: %s' % (kind, res)
+                return
+            sv, log = res['self'], res['log']
+
+            def fld(v, i, ty='usize'):
+                return ex_.materialize(ex_.field_of(v, None, i, ty), ty)
+            post = {'features': fld(sv, ix.S['features']), 'rules': fld(sv, ix.S['rules']),
+                    'parsing_errors': fld(sv, ix.S['parsing_errors']), 'failed_hooks': fld(sv, ix.S['failed_hooks'])}
+            for pfx, f in (('sc', 'scenarios'), ('st', 'steps')):
+                st = ex_.field_of(sv, None, ix.S[f], 'Stats')
+                for n in ix.Stats:
+                    post['%s_%s' % (pfx, n)] = fld(st, ix.Stats[n])
+            st_post = M.discr(ex_, ex_.field_of(sv, None, ix.S['state'], 'writer::summarize::State'))
+            terms = {'state': state_d, 'res': E.res, 'top': E.top, 'fe': E.fe, 're': E.re, 'sc': E.sc.sc, 'polls': bv(res['polls'])}
+
+            def refute(o, claim):
+                o.paths += 1
+                o.queries += 1
+                if ex_.check(z3.Not(claim)):
+                    if o.verdict != 'violated':
+                        o.verdict = 'violated'
+                        o.model = common.model_dict(ex_.solver.model(), terms)
+                        o.detail = 'counterexample (inner futures pending %d polls)' % k
+            inprog = state_d == bv(ix.State['InProgress'])
+            d = {n: post[n] - S.c[n] for n in summ.COUNTERS}
+            one = lambda c: z3.If(c, bv(1), bv(0))  # noqa
+            refute(ob('parsing_errors=parser-error-items'), d['parsing_errors'] == one(z3.And(inprog, E.is_err())))
+            refute(ob('features=Feature-Started-brackets'), d['features'] == one(z3.And(inprog, E.feature_ev(ix, 'Started'))))
+            refute(ob('rules=Rule-Started-brackets'), d['rules'] == one(z3.And(inprog, E.rule_ev(ix, 'Started'))))
+            others = [n for n in summ.COUNTERS if n not in ('parsing_errors', 'features', 'rules')]
+            refute(ob('no-other-counter-touched-outside-handle_scenario'), z3.And(*[d[n] == 0 for n in others]))
+            refute(ob('nothing-counted-after-run-Finished'), z3.Implies(z3.Not(inprog), z3.And(*[d[n] == 0 for n in summ.COUNTERS])))
+            # handle_scenario called exactly for scenario events while InProgress, with the event's own ids
+            hs = [e for e in log if e['kind'] == 'handle_scenario']
+            want_hs = z3.And(inprog, E.is_scenario(ix))
+            refute(ob('scenario-events-dispatched-iff-in-progress'), want_hs == z3.BoolVal(len(hs) == 1))
+            if len(hs) > 1:
+                ob('scenario-events-dispatched-iff-in-progress').verdict = 'violated'
+            if len(hs) == 1:
+                a = hs[0]['args']
+                rd = M.discr(ex_, a[2])
+                rule_ok = z3.BoolVal(True)
+                if not z3.is_bv_value(z3.simplify(rd)) or z3.simplify(rd).as_long() == 1:
+                    rule_ok = M.pid(ex_, ex_.field_of(ex_.materialize(a[2]), 1, 0, 'event::Source<gherkin::Rule>')) == E.pr
+                okargs = z3.And(M.pid(ex_, a[1]) == E.pf, M.pid(ex_, a[3]) == E.ps,
+                                rd == z3.If(E.scenario_in_rule(ix), bv(1), bv(0)),
+                                z3.Implies(E.scenario_in_rule(ix), rule_ok))
+                refute(ob('scenario-events-dispatched-with-own-feature-rule-scenario'), okargs)
+                # the event reference handed over is the stream item's own RetryableScenario
+                evr = ex_.materialize(M.load(ex_, a[4]))
+                same_ev = M.discr(ex_, ex_.field_of(evr, None, ix.RS['event'], 'event::Scenario<W>')) == E.sc.sc
+                refute(ob('scenario-events-dispatched-with-own-feature-rule-scenario'), same_ev)
+            # state machine + single summary write
+            fin = E.top_is(ix, 'Finished')
+            exp_state = z3.If(z3.And(inprog, fin), bv(ix.State['FinishedAndOutput']),
+                              z3.If(state_d == bv(ix.State['FinishedButNotOutput']), bv(ix.State['FinishedAndOutput']), state_d))
+            refute(ob('state-machine'), st_post == exp_state)
+            writes = [e for e in log if e['kind'] == 'inner_write_done']
+            want_write = z3.Or(z3.And(inprog, fin), state_d == bv(ix.State['FinishedButNotOutput']))
+            refute(ob('summary-written-exactly-once-right-after-run-Finished'), want_write == z3.BoolVal(len(writes) == 1))
+            if len(writes) > 1:
+                ob('summary-written-exactly-once-right-after-run-Finished').verdict = 'violated'
+            # the inner writer gets the very same item exactly once, before any summary write
+            calls = [e for e in log if e['kind'] == 'inner_handle_event_done']
+            o = ob('inner-writer-gets-the-item-once-before-the-summary')
+            o.paths += 1
+            if len(calls) != 1 or calls[0]['event'] is not res['input']:
+                o.verdict = 'violated'
+                o.detail = 'inner handle_event completions: %d (same object: %s)' % (len(calls), bool(calls and calls[0]['event'] is res['input']))
+            else:
+                idx_call = log.index(calls[0])
+                if any(log.index(w) < idx_call for w in writes):
+                    o.verdict = 'violated'
+                    o.detail = 'summary written before the item was forwarded'
+
+        ex.explore(run, on_end)
+    w = chk.add(Obligation('%s.handle_event.witness' % prop, 'exploration'))
+    w.kind = 'witness'
+    w.verdict = 'witness-ok' if total_paths[0] >= 8 * len(pendings) else 'witness-missing'
+    w.detail = '%d paths over %d pending settings' % (total_paths[0], len(pendings))
+    chk.assumptions.append('handle_event: inner writer futures (handle_event, write) complete after k polls, k in %s; Styles::new/apply_coloring/summary and Colored::coloring havoced (summary text is outside the property)' % (pendings,))
+    return list(obs.values())
